@@ -3,6 +3,8 @@ package sched
 import (
 	"fmt"
 	"math/rand"
+	"sync"
+	"sync/atomic"
 	"time"
 	"verif/internal/rconn"
 
@@ -185,6 +187,108 @@ func RestartLoop(seed int64, prog Program, n int) *RunResult {
 			viol("serve-hang", fmt.Sprintf("Serve call number %d had not returned 5s after the last Shutdown", i+1))
 			return out
 		}
+	}
+	return out
+}
+
+// FailSubLoop serves one Service value alternately on a connection whose subscriptions fail and on a
+// working one, while a producer keeps submitting callbacks of one worker group (accepted from the
+// moment the state is started, i.e. also while the failing subscribe is still in progress). The
+// callbacks of the group must never overlap, whichever serve cycle accepted them.
+func FailSubLoop(seed int64, prog Program, n int) *RunResult {
+	out := &RunResult{}
+	rng := rand.New(rand.NewSource(seed))
+	res.VerifHook = nil
+	s := res.NewService("test")
+	s.SetLogger(nil)
+	s.SetWorkerCount(prog.Workers)
+	var inside, overlaps, ran int32
+	body := func() {
+		if atomic.AddInt32(&inside, 1) > 1 {
+			atomic.AddInt32(&overlaps, 1)
+		}
+		k := atomic.AddInt32(&ran, 1)
+		time.Sleep(time.Duration(100+(int(k)*37)%400) * time.Microsecond)
+		atomic.AddInt32(&inside, -1)
+	}
+	s.Handle("g.$id", res.GetResource(func(r res.GetRequest) { body(); r.NotFound() }), res.Group("grp"))
+	viol := func(prop, kind, text string) {
+		out.Violations = append(out.Violations, Violation{Property: prop, Kind: kind, Text: text, Sig: map[string]string{"kind": kind, "engine": "sched", "group": "grp"}})
+	}
+	stop := make(chan struct{})
+	var pwg sync.WaitGroup
+	for p := 0; p < 2; p++ {
+		pwg.Add(1)
+		go func(p int) {
+			defer pwg.Done()
+			for i := 0; ; i++ {
+				select {
+				case <-stop:
+					return
+				default:
+				}
+				if (i+p)%2 == 0 {
+					s.WithGroup("grp", func(*res.Service) { body() })
+				} else {
+					s.With("test.g.1", func(res.Resource) { body() })
+				}
+				time.Sleep(time.Duration(20+(i*7)%60) * time.Microsecond)
+			}
+		}(p)
+	}
+	for i := 0; i < n && len(out.Violations) == 0; i++ {
+		conn := rconn.New(nil)
+		failing := i%2 == 0
+		if failing {
+			conn.FailSub = func(string) error { return fmt.Errorf("subscription refused") }
+		}
+		served := make(chan struct{}, 1)
+		s.SetOnServe(func(*res.Service) { served <- struct{}{} })
+		done := make(chan error, 1)
+		go func() { done <- s.Serve(conn) }()
+		if failing {
+			select {
+			case <-done: // Serve gives up (the error may or may not be reported)
+			case <-served:
+				viol("C03", "served-without-subscriptions", fmt.Sprintf("Serve number %d reported serving although every subscription failed", i+1))
+			case <-time.After(3 * time.Second):
+				viol("C03", "serve-hang", fmt.Sprintf("Serve number %d did not return within 3s after its subscriptions failed", i+1))
+			}
+		} else {
+			select {
+			case <-served:
+			case err := <-done:
+				viol("C03", "restart-refused", fmt.Sprintf("Serve number %d on a working connection, after a Serve that failed to subscribe, ended at once: %v", i+1, err))
+				continue
+			case <-time.After(3 * time.Second):
+				viol("C03", "serve-not-started", fmt.Sprintf("Serve number %d did not start within 3s", i+1))
+				continue
+			}
+			time.Sleep(time.Duration(1+rng.Intn(4)) * time.Millisecond)
+			sd := make(chan error, 1)
+			go func() { sd <- s.Shutdown() }()
+			select {
+			case <-sd:
+			case <-time.After(3 * time.Second):
+				viol("C03", hangKind(goroutineDump()), fmt.Sprintf("Shutdown did not return within 3s in serve cycle %d", i+1))
+				out.Note = trimDump(goroutineDump())
+				close(stop)
+				return out
+			}
+			select {
+			case <-done:
+			case <-time.After(3 * time.Second):
+				viol("C03", "serve-hang", fmt.Sprintf("Serve number %d did not return within 3s after Shutdown", i+1))
+			}
+		}
+		out.Steps++
+	}
+	close(stop)
+	pwg.Wait()
+	time.Sleep(5 * time.Millisecond)
+	out.Callbacks = int(atomic.LoadInt32(&ran))
+	if o := atomic.LoadInt32(&overlaps); o > 0 {
+		viol("C01", "group-overlap", fmt.Sprintf("%d times a callback of group \"grp\" started while another one was executing (serve cycles alternating between failing and working subscriptions)", o))
 	}
 	return out
 }
